@@ -96,9 +96,13 @@ def constant_memo(f):
         if prec <= memo_prec:
             return f.memo_val >> (memo_prec-prec)
         newprec = int(prec*1.05+10)
-        f.memo_val = f(newprec, **kwargs)
+        val = f(newprec, **kwargs)
+        # invalidate, store, validate: an interrupt between the stores
+        # must not leave a value under the wrong precision
+        f.memo_prec = -1
+        f.memo_val = val
         f.memo_prec = newprec
-        return f.memo_val >> (newprec-prec)
+        return val >> (newprec-prec)
     g.__name__ = f.__name__
     g.__doc__ = f.__doc__
     return g
